@@ -58,13 +58,13 @@ PrintIds == {"q1", "q2", "q3", "q4", "q5"}
 
 \* shared data maps
 DataSets == [good |-> [x |-> S("v<"), xs |-> L(<<I(1), I(2)>>)],
-             bad  |-> [x |-> S("v"), xs |-> I(5)]]
+             bad  |-> [xs |-> L(<<I(3)>>)]]        \* no x: printing it fails
 
 Cases == << [t |-> "c.one", d |-> "good"],     \* 3 node steps
             [t |-> "c.two", d |-> "good"],     \* 3
             [t |-> "c.three", d |-> "good"],   \* 5
             [t |-> "c.four", d |-> "good"],    \* 6
-            [t |-> "c.two", d |-> "bad"] >>    \* 1, fails
+            [t |-> "c.one", d |-> "bad"] >>    \* 1, fails at its first print
 Small == {1, 2, 5}
 
 Groups == IF GSize = 2
